@@ -72,7 +72,66 @@ fn main() {
     }
 }
 
+/// Runs one enumeration task of a plan on a fresh single-threaded checker; returns its violations.
+pub fn run_task(prop: &str, tier: &str, phase: usize, task: usize) -> Vec<oracle::Violation> {
+    let t = if tier == "thorough" { plan::Tier::Thorough } else { plan::Tier::Quick };
+    let p = match plan::plan(prop, t) {
+        Some(p) => p,
+        None => return Vec::new(),
+    };
+    let ph = match p.phases.get(phase) {
+        Some(ph) => ph,
+        None => return Vec::new(),
+    };
+    // task == usize::MAX: every task of the phase, in index order, on the same caller
+    if (task != usize::MAX && task >= ph.tasks.len()) || !ph.backend.force() {
+        return Vec::new();
+    }
+    let journal = Arc::new(journal::Journal::anonymous());
+    let mut ck = oracle::Checker::new(prop, p.armed, call::Caller::new(journal.slot(0), 1 << 21, 400_000));
+    ck.limit = 64;
+    for (i, t) in ph.tasks.iter().enumerate() {
+        if task == usize::MAX || task == i {
+            ck.task_id = (phase as u32, i as u32);
+            t(&mut ck);
+            if ck.full() {
+                break;
+            }
+        }
+    }
+    call::Backend::Native.force();
+    ck.violations
+}
+
+/// Runs phases 0..=last of a plan, every task in order, on ONE fresh caller (single-threaded,
+/// deterministic call order); stops at the first violation.
+pub fn run_sequential(prop: &str, tier: &str, last: usize) -> Vec<oracle::Violation> {
+    let t = if tier == "thorough" { plan::Tier::Thorough } else { plan::Tier::Quick };
+    let p = match plan::plan(prop, t) {
+        Some(p) => p,
+        None => return Vec::new(),
+    };
+    let journal = Arc::new(journal::Journal::anonymous());
+    let mut ck = oracle::Checker::new(prop, p.armed, call::Caller::new(journal.slot(0), 1 << 21, 400_000));
+    ck.limit = 8;
+    'all: for (pi, ph) in p.phases.iter().enumerate().take(last + 1) {
+        if !ph.backend.force() {
+            continue;
+        }
+        for (i, t) in ph.tasks.iter().enumerate() {
+            ck.task_id = (pi as u32, i as u32);
+            t(&mut ck);
+            if ck.nviol > 0 {
+                break 'all;
+            }
+        }
+    }
+    call::Backend::Native.force();
+    ck.violations
+}
+
 fn run(args: &[String]) {
+    let _ = replay::RUN_TIER.set(args[3].clone());
     let prop = args[2].clone();
     let tier = match args[3].as_str() {
         "quick" => plan::Tier::Quick,
